@@ -127,7 +127,8 @@ pub fn arb_frame(max_len: usize) -> impl Strategy<Value = RFrame> {
         any::<bool>(),
         any::<[bool; 3]>(),
         0usize..6,
-        proptest::option::of(any::<[u8; 4]>()),
+        // keys: any, all-zero (masking is then the identity, the MASK bit and the four key bytes must still be there), some zero bytes
+        proptest::option::of(prop_oneof![6 => any::<[u8; 4]>(), 1 => Just([0u8; 4]), 1 => any::<[u8; 4]>().prop_map(|k| [k[0], 0, 0, k[3]])]),
         prop_oneof![
             3 => (0usize..BOUNDARY_LENS.len()).prop_map(|i| BOUNDARY_LENS[i]),
             3 => 0usize..300,
